@@ -202,6 +202,7 @@ def table_strategy():
         'n': st.integers(2, 60),
         'stamps': st.sampled_from(['uniform', 'irregular', 'irregular']),
         't0': st.sampled_from([0.0, 1234.5, -17.25]),
+        'ints': st.sampled_from(['none', 'none', 'accel', 'gyro', 'both']),      # integer-valued readings stored with an integer dtype
         'sub': st.integers(0, 2 ** 31 - 1),
     })
 
@@ -219,7 +220,16 @@ def run_table(case, ctx):
             dt[i] = np.clip(dt[i - 1] * rng.uniform(1 / 3, 3), 1e-3, 0.16)
     t = case['t0'] + np.concatenate([[0.0], np.cumsum(dt)])
     data = rng.randn(n, 6) * [1, 1, 1, 10, 10, 10]
+    ints = case.get('ints', 'none')
+    int_cols = {'none': [], 'accel': COLS[3:], 'gyro': COLS[:3], 'both': COLS}[ints]
+    if ints in ('accel', 'both'):
+        data[:, 3:] = np.rint(data[:, 3:]) + 0.0          # + 0.0: no negative zeros, which an integer cannot store
+    if ints in ('gyro', 'both'):
+        data[:, :3] = np.rint(data[:, :3] * 3) + 0.0
     imu = pd.DataFrame(data, index=pd.Index(t, name='time'), columns=COLS)
+    as_float = imu.copy()
+    if int_cols:          # a hand-built table: whole-number readings kept as int64 next to float columns
+        imu = imu.astype({c: np.int64 for c in int_cols})
     imu['extra'] = 7.0
     layout = case['sub'] % 4
     if layout == 1:       # accelerometer columns first
@@ -230,7 +240,13 @@ def run_table(case, ctx):
     snap = imu.copy()
     inc = ctx.sut(strapdown.compute_increments_from_imu, imu, case['sensor_type'])
     ctx.check(imu.equals(snap), 'input_modified', '')
-    ctx.label(f"type={case['sensor_type']}", f"stamps={case['stamps']}", f'column_layout={layout if layout < 3 else 0}')
+    ctx.label(f"type={case['sensor_type']}", f"stamps={case['stamps']}", f'column_layout={layout if layout < 3 else 0}', f'int_columns={ints}')
+    if int_cols:
+        flt = strapdown.compute_increments_from_imu(as_float, case['sensor_type'])
+        # conversion of whole numbers to float64 is exact, so the unchanged code agrees bit for bit; 16 ulp of the largest entry are
+        # allowed for implementations that order their arithmetic differently for the two dtypes
+        ctx.check(inc.values.dtype == np.float64 and np.abs(inc.values - flt.values).max() <= 16 * np.spacing(np.abs(flt.values).max()), 'dtype_dependent',
+                  lambda: f'integer-typed {ints} columns: max difference to the same values as float64 {np.abs(inc.values.astype(float) - flt.values).max():.3e}')
     # columns are addressed by label: the same table in another column order gives the same result
     ref_inc = strapdown.compute_increments_from_imu(canonical, case['sensor_type'])
     ctx.check(bits_equal(inc.values, ref_inc.values), 'column_order_dependent', 'result depends on the order of the labelled IMU columns')
